@@ -69,6 +69,12 @@ func genC13(r *simrt.Rand, tier string) (Cfg, *Program) {
 		pf.CtrlOps = [2]int{1, 1}
 		pf.CtrlGapPct = 70
 	}
+	if pf.Waiters[1] == 0 && len(pf.Ctrl) == 0 {
+		// (no worker-level barrier call in the program: WaitUntilFinished holds the worker's
+		// lock while it asks the backend for its length, which cannot work with a backend
+		// that calls back under its own lock - see DESIGN 11.4)
+		pf.NSyncPct = 25
+	}
 	c, p := generate(r, pf)
 	c.Consumers = 1 + r.Intn(4)
 	for i := range c.Queues {
